@@ -16,6 +16,13 @@ def run(ctx, idx):
     ctx.rule("C03.c", "The returned value is a masked array whose mask is built from input masks (no constant mask on a value that depends on inputs).")
     ctx.rule("C03.d", "insure_fuzzy keeps the mask: on a symbolic masked argument it returns the same object, still masked, with coverage and payload unchanged (summary computed from its body).")
     ctx.rule("C03.e", "Readers: the mask stored on the returned array derives from a comparison of the data with the cleaned missing-value parameter (plus the file's own mask for NetCDF) and is stored on the returned local.")
+    coverage(ctx, idx, "C03.a", "C03.b", "C03.c")
+    insure_fuzzy_keeps_mask(ctx, idx)
+    readers(ctx, idx, "C03.e")
+    ctx.count("execute_bodies", len(R.results(idx)))
+
+
+def coverage(ctx, idx, ra, rb, rc):
     n_cmd = n_ret = 0
     for d, r in R.data_commands(idx):
         n_cmd += 1
@@ -24,15 +31,15 @@ def run(ctx, idx):
             con = R.ret_key(d, n)
             line = R.line_of(s)
             if not isinstance(v, Arr):
-                ctx.violate("C03.c", con, d.module.rel, line, "a data command returns a non-array value (%s)" % type(v).__name__ if not hasattr(v, "tag") else "a data command returns %s, not an array" % v.tag)
+                ctx.violate(rc, con, d.module.rel, line, "a data command returns a non-array value (%s)" % type(v).__name__ if not hasattr(v, "tag") else "a data command returns %s, not an array" % v.tag)
                 continue
             inputs = frozenset(t for t in v.D if is_input_token(t))
             miss = inputs - v.M
             if miss:
-                ctx.violate("C03.a", con, d.module.rel, line,
+                ctx.violate(ra, con, d.module.rel, line,
                             "result cells are computed from %s but the returned mask does not cover its missing cells: a missing input cell comes out as a valid number" % R.tok_text(miss))
             else:
-                ctx.hold("C03.a", con, d.module.rel, line, "D=%s ⊆ M=%s" % (R.tok_text(inputs) or "∅", R.tok_text(v.M) or "∅"), nontrivial=bool(inputs))
+                ctx.hold(ra, con, d.module.rel, line, "D=%s ⊆ M=%s" % (R.tok_text(inputs) or "∅", R.tok_text(v.M) or "∅"), nontrivial=bool(inputs))
             leak = frozenset(t for t in v.Pc if is_input_token(t)) - v.M - miss
             pg = frozenset(t for t in v.Pg if is_input_token(t))
             if leak or pg:
@@ -41,20 +48,22 @@ def run(ctx, idx):
                     why.append("hidden data of %s reaches result cells that are not re-masked" % R.tok_text(leak))
                 if pg:
                     why.append("a whole-array reduction consumes the hidden data of %s" % R.tok_text(pg))
-                ctx.violate("C03.b", con, d.module.rel, line, "; ".join(why))
+                ctx.violate(rb, con, d.module.rel, line, "; ".join(why))
             else:
-                ctx.hold("C03.b", con, d.module.rel, line, "Pc=%s ⊆ M, Pg=∅" % (R.tok_text(v.Pc) or "∅"), nontrivial=bool(v.Pc))
+                ctx.hold(rb, con, d.module.rel, line, "Pc=%s ⊆ M, Pg=∅" % (R.tok_text(v.Pc) or "∅"), nontrivial=bool(v.Pc))
             if miss:
                 pass  # already reported under C03.a for this return
             elif inputs and v.kind == "masked" and v.constmask and not v.M:
-                ctx.violate("C03.c", con, d.module.rel, line, "the returned mask is a constant although the value depends on %s" % R.tok_text(inputs))
+                ctx.violate(rc, con, d.module.rel, line, "the returned mask is a constant although the value depends on %s" % R.tok_text(inputs))
             elif v.kind != "masked" and inputs:
-                ctx.violate("C03.c", con, d.module.rel, line, "the returned value is a %s array: it has no mask at all, so missing cells of %s are lost" % (v.kind, R.tok_text(inputs)))
+                ctx.violate(rc, con, d.module.rel, line, "the returned value is a %s array: it has no mask at all, so missing cells of %s are lost" % (v.kind, R.tok_text(inputs)))
             else:
-                ctx.hold("C03.c", con, d.module.rel, line, "masked array with a mask derived from inputs", nontrivial=False)
-    ctx.floor("C03.a", "data command classes", n_cmd, 30)
-    ctx.floor("C03.a", "return sites", n_ret, 30)
-    # C03.d
+                ctx.hold(rc, con, d.module.rel, line, "masked array with a mask derived from inputs", nontrivial=False)
+    ctx.floor(ra, "data command classes", n_cmd, 30)
+    ctx.floor(ra, "return sites", n_ret, 30)
+
+
+def insure_fuzzy_keeps_mask(ctx, idx):
     sym = Arr(kind="masked", alias=frozenset({"X"}), M=frozenset({"X"}), D=frozenset({"X"}), shape="same", dtprov=frozenset({"X"}))
     res, out, fi = R.summarize_helper(idx, "mpilot.utils", "insure_fuzzy", [sym, Scal(sym="lo"), Scal(sym="hi")])
     con = "%s::mask-kept" % fi.key
@@ -73,7 +82,9 @@ def run(ctx, idx):
         elif isinstance(out, Arr) and (out.Pc - out.M or out.Pg):
             why = "insure_fuzzy lets hidden data reach valid cells"
         ctx.violate("C03.d", con, K.rel(fi), fi.node.lineno, why)
-    # C03.e readers
+
+
+def readers(ctx, idx, rule):
     n_readers = 0
     for key, (d, r) in R.results(idx).items():
         if not d.is_data() or d.ref_inputs() or d.cls.name != "EEMSRead":
@@ -89,16 +100,17 @@ def run(ctx, idx):
                 good.append((line, target, val))
         rets = [v for _, v, _ in r.returns if isinstance(v, Arr)]
         if not good:
-            ctx.violate("C03.e", con, d.module.rel, d.execute.node.lineno,
+            ctx.violate(rule, con, d.module.rel, d.execute.node.lineno,
                         "no mask derived from a comparison of the data with the cleaned `%s` parameter is stored on the array" % miss_params[0])
         elif not all(any(t.alias & v.alias for _, t, _ in good) for v in rets):
-            ctx.violate("C03.e", con, d.module.rel, good[0][0], "the missing-value mask is stored on an object that is not the returned array")
+            ctx.violate(rule, con, d.module.rel, good[0][0], "the missing-value mask is stored on an object that is not the returned array")
+        elif any(val.cmp[1] != "Eq" for _, _, val in good):
+            ops = sorted({val.cmp[1] for _, _, val in good} - {"Eq"})
+            ctx.violate(rule, con, d.module.rel, good[0][0], "cells are marked missing by a `%s` comparison with `%s`, not by equality: valid cells that merely come close to the missing value are turned into missing cells" % ("/".join(ops), miss_params[0]))
         else:
-            ctx.hold("C03.e", con, d.module.rel, good[0][0], "mask from `data == %s` stored on the returned array" % miss_params[0])
-        for line, a, nm, node, fk in r.selfstores if False else []:
-            pass
+            ctx.hold(rule, con, d.module.rel, good[0][0], "mask from `data == %s` stored on the returned array" % miss_params[0])
+        R.zero_is_a_value(ctx, rule, d, r)
         for w in r.writes:
             if "self" in w.alias:
-                ctx.violate("C03.e", "%s.execute::mask-on-self" % d.key, d.module.rel, w.line, "the mask is stored through `self` (%s), not on the returned local" % w.what)
-    ctx.floor("C03.e", "reader commands", n_readers, 2)
-    ctx.count("execute_bodies", len(R.results(idx)))
+                ctx.violate(rule, "%s.execute::mask-on-self" % d.key, d.module.rel, w.line, "the mask is stored through `self` (%s), not on the returned local" % w.what)
+    ctx.floor(rule, "reader commands", n_readers, 2)
